@@ -47,6 +47,13 @@ var propInfo = map[string]struct {
 			"scope: proved per API call of the functions listed under functions_under_contract; ProjectionPlan, FinalOrderPlan, AggregatePlan, the Batch forms of the scans and buildPlan/BuildPlan are not yet under contract for this property",
 			"A-STORE: the Storage implementation reports failure only through the returned error",
 		}},
+	"C06": {"proof",
+		"Panic-freedom of the functions under contract: for every function that any property puts under contract the engine generates, without annotation, one obligation per run-time-panic site of its go/ssa form - nil dereference (field access, method call on a nil interface, call of a nil func value), index out of range, slice bounds, unchecked type assertion, integer division by zero, write to a nil map, make with a negative length, explicit panic - and discharges it from the function's precondition, its loop invariants and its callees' postconditions, for all inputs. Loops with a decreases clause are additionally proved to terminate.",
+		[]string{
+			"scope: the functions listed under functions_under_contract (this is not the whole-program statement: the parser, checker, lexer, scalar functions, order and aggregate plans are not yet under contract; stack depth and termination of loops without a decreases clause are not addressed)",
+			"the preconditions under which a function is panic-free are those of its contract; that every caller establishes them is checked at the call sites that are themselves under contract",
+			"panics inside standard-library callees are not modelled (regexp.Compile and strconv return errors; fmt does not panic on the values passed)",
+		}},
 }
 
 func propLevel(p string) (string, bool) {
